@@ -22,16 +22,16 @@ def run(ctx):
     ctx.floor("output-impls", len(impls), 170)
     by_last = {}
     for k, v in F.aliases.items():
-        by_last.setdefault(k.rsplit("::", 1)[1], []).append((k, v))
+        by_last.setdefault(k.rsplit("::", 1)[-1], []).append((k, v))
     empty, matched, unmatched = [], 0, []
     for n in sorted(impls):
         f = F.fns[n]
-        tr = sorted(set(c[0].rsplit("::", 1)[1] for c in f.calls if "TrackedResources" in c[0]))
+        tr = sorted(set(c[0].rsplit("::", 1)[-1] for c in f.calls if "TrackedResources" in c[0]))
         if tr != ["new_empty"]:
             continue
         empty.append(n)
         ty = re.match(r"^<(.*) as ", n).group(1)
-        last = ty.rsplit("::", 1)[1]
+        last = ty.rsplit("::", 1)[-1]
         base = re.sub(r"(Manifest)?Input$", "", last)
         al = by_last.get(base + "Output", [])
         if not al:
